@@ -12,20 +12,25 @@ theorem decl_not_nonfinal (a : Attr) : (a.decl.kind == Kind.constant && a.decl.f
   simp only [Attr.decl]
   cases a.final <;> simp
 
-theorem declValue_some {a : Attr} {v : Val} (hv : a.value = some v) (hn : ¬ ∃ u, v = .undef ∧ a.ty = .opt u) :
-    a.declValue = some v := by
+theorem declValue_some {a : Attr} {v : Val} (hv : a.value = some v)
+    (hn : a.kind = .constant ∨ ¬ ∃ u, v = .undef ∧ a.ty = .opt u) : a.declValue = some v := by
   unfold Attr.declValue
-  split
-  · rename_i hv' ht
-    rw [hv] at hv'
-    simp only [Option.some.injEq] at hv'
-    exact absurd ⟨_, hv', ht⟩ hn
-  · exact hv
+  by_cases hk : a.kind = .constant
+  · simp [hk, hv]
+  · have hkb : (a.kind == Kind.constant) = false := by simpa using hk
+    simp only [hkb, Bool.false_eq_true, if_false]
+    rcases hn with hn | hn
+    · exact absurd hn hk
+    · split
+      · rename_i hv' ht
+        rw [hv] at hv'
+        simp only [Option.some.injEq] at hv'
+        exact absurd ⟨_, hv', ht⟩ hn
+      · exact hv
 
 /-- every attribute `attribute.initialize` makes is printed back as a declaration from which `initialize` makes the same
-    attribute — except a constant of an `Optional[…]` type whose value is undef (its value is left out) -/
-theorem mkAttr_decl {d : AttrDecl} {a : Attr} (h : mkAttr d = .ok a) (hu : a.undefConstant = false) :
-    mkAttr a.decl = .ok a := by
+    attribute (after the fix 86875be also a constant of an `Optional[…]` type whose value is undef) -/
+theorem mkAttr_decl {d : AttrDecl} {a : Attr} (h : mkAttr d = .ok a) : mkAttr a.decl = .ok a := by
   obtain ⟨hcore, -⟩ := mkAttr_core h
   unfold mkAttr
   rw [decl_not_nonfinal]
@@ -42,14 +47,16 @@ theorem mkAttr_decl {d : AttrDecl} {a : Attr} (h : mkAttr d = .ok a) (hu : a.und
       · rename_i hinst
         cases hcore
         simp only [Bool.or_eq_true, beq_iff_eq, not_or] at hk
-        by_cases hvu : (∃ u, v = .undef ∧ ty = .opt u)
-        · obtain ⟨u, rfl, rfl⟩ := hvu
-          have hkc : k ≠ .constant := by
-            intro hc; subst hc; simp [Attr.undefConstant] at hu
+        by_cases hvu : k ≠ .constant ∧ (∃ u, v = .undef ∧ ty = .opt u)
+        · obtain ⟨hkc, u, rfl, rfl⟩ := hvu
           simp [mkAttrCore, Attr.decl, Attr.declValue, hkc, hk.2, AttrDecl.isFinal, inst, ite_some_true]
           rcases f with _ | _ | _ <;> simp
         · generalize hfin : AttrDecl.isFinal _ = fin
-          have hdv : Attr.declValue (Attr.mk n ty k (some v) o fin) = some v := declValue_some rfl hvu
+          have hdv : Attr.declValue (Attr.mk n ty k (some v) o fin) = some v :=
+            declValue_some rfl (by
+              by_cases hkc : k = .constant
+              · exact Or.inl hkc
+              · exact Or.inr (fun hex => hvu ⟨hkc, hex⟩))
           simp only [mkAttrCore, Attr.decl, hdv]
           subst hfin
           cases k <;> simp [hinst, AttrDecl.isFinal, ite_some_true] at hk ⊢ <;> rcases f with _ | _ | _ <;> simp
@@ -67,7 +74,7 @@ theorem mkAttr_decl {d : AttrDecl} {a : Attr} (h : mkAttr d = .ok a) (hu : a.und
         by_cases hc : (k == Kind.givenOrDerived && !inst ty Val.undef) = true
         · rw [if_pos hc] at hty; subst hty; simp [inst]
         · rw [if_neg hc] at hty; subst hty; simpa using hc
-      clear hty hu h
+      clear hty h
       cases ty' <;> simp only [mkAttrCore, Attr.decl, Attr.declValue, hgod] <;>
         cases k <;> simp [AttrDecl.isFinal, ite_some_true] at hk hgod ⊢ <;> rcases f with _ | _ | _ <;> simp
 
@@ -303,7 +310,7 @@ theorem typeDef_noBoth {as : List Attr} (hnd : (as.map (·.name)).Nodup) (parent
   simp [hac] at hbc
 
 theorem typeDef_decls {parent : OType} {ds : List AttrDecl} {as : List Attr} (h : defineAttrs parent ds = .ok as)
-    (hu : ∀ a ∈ as, a.undefConstant = false) (pn : Option Nat) (l : Level) (hl : l.attrs = as) :
+    (pn : Option Nat) (l : Level) (hl : l.attrs = as) :
     defineAttrs parent ((typeDef pn l).decls parent) = .ok (reorder as) := by
   have hall := forall₂_right_mem (defineAttrs_iff.mp h)
   rw [defineAttrs_iff]
@@ -313,7 +320,7 @@ theorem typeDef_decls {parent : OType} {ds : List AttrDecl} {as : List Attr} (h 
   · rw [List.forall₂_map_left_iff, List.forall₂_same]
     intro a ha
     obtain ⟨d, -, hm, ho⟩ := hall a (List.mem_filter.mp ha).1
-    exact ⟨mkAttr_decl hm (hu a (List.mem_filter.mp ha).1), ho⟩
+    exact ⟨mkAttr_decl hm, ho⟩
   · rw [List.forall₂_map_left_iff, List.forall₂_map_left_iff, List.forall₂_same]
     intro a ha
     obtain ⟨d, -, hm, ho⟩ := hall a (List.mem_filter.mp ha).1
@@ -337,11 +344,9 @@ theorem defineFuncs_keys {parent : OType} {keys keys' : List String} {fs : List 
         exact ih (fun g hg => hk g (by simp [hg])) h
 
 /-- an accepted definition, re-created from the InitHash of the type it defined (`typeDef`): accepted again, and the type
-    is the same except that the own attributes stand in the order of the printed definition (`constants` last) —
-    provided no own attribute is a constant of an `Optional[…]` type with the value undef -/
+    is the same except that the own attributes stand in the order of the printed definition (`constants` last) -/
 theorem define_typeDef {env : List OType} {d : Def} {l : Level} {p : OType} (hnd : (d.attrs.map (·.name)).Nodup)
     (hcn : (d.constants.map (·.1)).Nodup) (h : define env d = .ok (l :: p))
-    (hu : ∀ a ∈ l.attrs, a.undefConstant = false)
     (hfk : ∀ f ∈ l.funcs, ∀ a ∈ l.attrs, a.name = f.name → a.constLike = true) :
     define env (typeDef d.parent l) = .ok ({ l with attrs := reorder l.attrs } :: p) := by
   obtain ⟨hpar, hboth, attrs, hattrs, heq, hser, hfn, hnf, ht⟩ := define_parts h
@@ -377,7 +382,7 @@ theorem define_typeDef {env : List OType} {d : Def} {l : Level} {p : OType} (hnd
     cases d.includeType.getD true <;> rfl
   unfold define
   simp only [hp, hpars, hfns, hfn', hpar, typeDef_noBoth hnames d.parent l hla, Bool.false_eq_true, if_false,
-    typeDef_decls hattrs (by rw [← hla]; exact hu) d.parent l hla, heqs, hsers, hinc]
+    typeDef_decls hattrs d.parent l hla, heqs, hsers, hinc]
   have hisfn : ∀ n, isFnName (reorder attrs) d.funcs (parentOf env d) n = isFnName attrs d.funcs (parentOf env d) n := by
     intro n
     unfold isFnName
